@@ -24,6 +24,7 @@
 //                                                        -> groups `<status> <payload> <names>` joined by " | ", channels with the same
 //                                                           answer share a group: ok <hex text> n.xstr,n.fmem,... | ok #<n> n.count
 //                                                           failure: err E_x <names>  (+ " ## <name>=<hex of the text written so far>")
+//   tchan <pf> <dump>           jbl_from_node, jbl_to_node(clone_strings = false), then every channel of jbn_as_json on the borrowed tree
 //   chunks <pf> <dump>          the calls the printer makes: c<ch>[x<count>] (data == NULL; ch as the C char it is passed as),
 //   jchunks <pf> <dump>           b<hex>/<size>/<count> (data != NULL: bytes up to size, or up to the NUL when size < 0)
 //                                                        -> ok <chunk> <chunk> ... | err E_x
@@ -175,7 +176,7 @@ static iwrc prod_xml(void *doc, jbl_json_printer pt, void *op, jbl_print_flags_t
   return jbn_as_xml(doc, &spec);
 }
 
-#define MAXCH 8
+#define MAXCH 8   /* channels of one query */
 struct cres { const char *name; iwrc rc; char *txt; size_t len; int is_count; long n; };
 static struct cres cr[MAXCH];
 static int ncr;
@@ -264,6 +265,7 @@ static void cres_print(void) {
 static const char *const N_NAMES[] = { "n.xstr", "n.fmem", "n.file", "n.count", "n.rec" };
 static const char *const B_NAMES[] = { "b.xstr", "b.fmem", "b.file", "b.count", "b.rec" };
 static const char *const X_NAMES[] = { "x.xstr", "x.fmem", "x.file", "x.count", "x.rec" };
+static const char *const T_NAMES[] = { "t.xstr", "t.fmem", "t.file", "t.count", "t.rec" };
 
 int main(void) {
   size_t cap = 1 << 22;
@@ -346,6 +348,27 @@ int main(void) {
           jbl_destroy(&jbl);
         }
       }
+      iwpool_destroy(pool);
+    } else if (!strcmp(cmd, "tchan") && tn >= 3) {
+      // a tree whose names and strings are BORROWED from a binary document (jbl_to_node, clone_strings = false: counted, not
+      // terminated) through every channel of jbn_as_json / jbn_as_json_alloc
+      struct iwpool *pool = iwpool_create(0);
+      jbl_print_flags_t pf = (jbl_print_flags_t) atoi(tv[1]);
+      ti = 2;
+      struct jbl_node *n = rdval(pool), *n2 = 0;
+      struct jbl *jbl = 0;
+      iwrc rc = n ? jbl_from_node(&jbl, n) : IW_ERROR_INVALID_ARGS;
+      if (!rc) rc = jbl_to_node(jbl, &n2, false, pool);
+      if (rc || !n2) printf("err1 %s\n", ename(rc));
+      else {
+        run_sinks(T_NAMES, prod_node, n2, pf);
+        char *out = 0;
+        rc = jbn_as_json_alloc(n2, pf, &out);
+        cres_add("t.alloc", rc, out, out ? strlen(out) : 0, 0, 0);
+        free(out);
+        cres_print();
+      }
+      if (jbl) jbl_destroy(&jbl);
       iwpool_destroy(pool);
     } else if ((!strcmp(cmd, "chunks") || !strcmp(cmd, "jchunks")) && tn >= 3) {
       struct iwpool *pool = iwpool_create(0);
